@@ -23,7 +23,7 @@ SPEC = dict(
     assumptions=["packaging decides validity/equality of PEP 440 versions; canonical spelling is NOT demanded "
                  "(1.0.a0 is acceptable) - only the statement's clauses are asserted"],
     required=["lib_checks", "cli_pep440_lines", "file_occurrences_checked", "tags:alpha", "tags:final", "tags:post",
-              "tags:dev", "zero_padded_cases", "show_pep440_values_checked", "both_placeholder_updates"],
+              "tags:dev", "zero_padded_cases", "show_pep440_values_checked", "both_placeholder_updates", "grep_with_version_pattern"],
     anchors=[("v2patterns", "_convert_to_pep440"), ("version", "to_pep440"), ("v2patterns", "normalize_pattern")],
 )
 
@@ -344,5 +344,21 @@ def run_case(ctx, case):
         for pr in probs:
             if pr[0].startswith("pep440-occurrence"):
                 ctx.violation(classify(proj.vp, pr[0]), f"{pr[1]} (vp={proj.vp!r})", observed=proj.describe())
+        if not probs:
+            # "is accepted by the derived search pattern", observed through the CLI: `bumpver grep --version-pattern`
+            # with the configured pattern finds what `update` has just written
+            after = harness.snapshot(d)
+            for fn, pats in proj.file_patterns.items():
+                if fn == proj.cfg_name:
+                    continue
+                for raw in pats:
+                    if "{pep440_version}" not in raw or projects.is_end_anchored(raw) or raw.startswith("-"):
+                        continue
+                    g = harness.invoke(["grep", "--version-pattern", proj.vp, "--", raw, fn], cwd=d)
+                    ctx.counters["grep_with_version_pattern"] += 1
+                    if g.crash or g.exit_code != 0:
+                        ctx.violation(classify(proj.vp, "not_accepted_by_derived_pattern"),
+                                      f"bumpver grep --version-pattern {proj.vp!r} {raw!r} {fn}: exit {g.exit_code} "
+                                      f"{(g.crash or '')[-200:]} after update wrote {a!r}", observed=proj.describe())
     finally:
         harness.rm_dir(d)
